@@ -19,6 +19,7 @@ from ..scripted_rng import ScriptedRng, enumerate_outcomes
 
 ID = 'C11'
 LEVEL = 'exploration'
+DEBUG_TOGGLE = True  # runner flips the library debug flag every 97 monitored executions
 TECHNIQUE = 'runtime monitoring with outcome injection: a scripted stand-in for numpy Generator enumerates every resolution of every random choice of move_obstacles/teleport; order-agnostic local rules (bipartite matching old->new obstacle cells) on each outcome, completeness on the outcome set; seeded real generators on larger layouts and shipped histories'
 LEVEL_TEXT = ('For each layout every random outcome of the real move_obstacles / teleport is produced by enumerating the '
               'scripts of a stand-in generator (decision tree walked completely), and each outcome is checked against '
